@@ -579,7 +579,7 @@ fn run_batch(ctx: &Ctx, sub: &str, class: &str, items: &[(Kind, String)]) {
 }
 
 pub fn run(ctx: &Ctx) {
-    ctx.set_rule("per grammar: (1) all strings up to length L over a class-representative alphabet (identifiers: L=3 full 14-char alphabet + L=4 over 8 chars quick, L=5 thorough; versions: L=6 quick / 8 thorough over 9 chars), (2) reserved words with every prefix, suffix, case variant, one-char insertion/deletion/substitution, (3) random strings <=40 chars (half valid by construction), (4) version-like strings from boundary numbers and malformed separators, u64 triples display->parse; oracle: hand-written recognisers vs three acceptance paths (FromStr/TryFrom, TOML and JSON deserialisation, literal macros via one cargo check) + render/round-trip identities. Non-trivial: string contains a reserved word, or is accepted and carries non-letter characters (zero components for versions), or is rejected but one deletion/substitution away from an accepted string; distinct = hash of (grammar, string).");
+    ctx.set_rule("per grammar: (1) all strings up to length L over a class-representative alphabet (identifiers: L=3 full 14-char alphabet + L=4 over 8 chars quick, L=5 thorough; versions: L=6 quick / 8 thorough over 9 chars), (2) reserved words with every prefix, suffix, case variant, one-char insertion/deletion/substitution, (2b) all concatenations of up to three tokens from a 30-word dictionary (reserved words, .toml/.sbom/.json, @, 1.2.3, separators), (3) random strings <=40 chars (half valid by construction), (4) version-like strings from boundary numbers and malformed separators, u64 triples display->parse; oracle: hand-written recognisers vs three acceptance paths (FromStr/TryFrom, TOML and JSON deserialisation, literal macros via one cargo check) + render/round-trip identities. Non-trivial: string contains a reserved word, or is accepted and carries non-letter characters (zero components for versions), or is rejected but one deletion/substitution away from an accepted string; distinct = hash of (grammar, string).");
     ctx.assume("LayerName strings containing newline, '/' or NUL are treated as undecided by the spec: only agreement of the three acceptance paths is required for them");
     ctx.assume("API versions with redundant leading zeros are accepted by the property ('plain digits')");
     ctx.set_exhaustive(true);
@@ -611,6 +611,25 @@ pub fn run(ctx: &Ctx) {
     for k in NEWTYPES {
         let items: Vec<(Kind, String)> = rv.iter().map(|s| (k, s.clone())).collect();
         run_batch(ctx, "reserved", "reserved-word-variant", &items);
+    }
+    // (2b) concatenations of up to three tokens from a dictionary of words and separators that occur around these
+    //      identifiers (file suffixes, version suffixes, reserved words)
+    let dict = ["build", "launch", "store", "app", "config", "sbom", ".toml", ".sbom", ".json", ".cdx", ".", ".d", "-", "_", "/", "@", ":", "1.2.3", "0", "1", "cache", "layer", "env", "exec.d", "web", "x", "A", " ", "\n", "+"];
+    let mut combos: Vec<String> = vec![];
+    for a in dict {
+        combos.push(a.to_string());
+        for b in dict {
+            combos.push(format!("{a}{b}"));
+            for c in dict {
+                combos.push(format!("{a}{b}{c}"));
+            }
+        }
+    }
+    combos.sort();
+    combos.dedup();
+    for k in NEWTYPES {
+        let items: Vec<(Kind, String)> = combos.iter().map(|s| (k, s.clone())).collect();
+        run_batch(ctx, "dictionary", "dictionary-concatenation", &items);
     }
     // (3) random longer strings
     let n_long = ctx.tier.pick(6_000, 250_000);
